@@ -573,7 +573,17 @@ class BuiltinMixin:
         if seq is None and items is not None:
             seq = self.list_seq(st, st.alloc(HList(items=items)))
         if seq is None and isinstance(v, VStr):
-            raise Unsupported("iter over str")
+            # the characters of the string, in order
+            seq = z3.Function("str_chars", S, SeqU)(v.t)
+            i = fresh("ci", I)
+            st.assume(z3.Length(seq) == z3.Length(v.t))
+            st.assume(z3.ForAll([i], z3.Implies(z3.And(i >= 0, i < z3.Length(v.t)), seq[i] == U.str(z3.SubString(v.t, i, 1)))))
+        if seq is None and isinstance(v, VRange):
+            seq = z3.Function("range_items", I, I, SeqU)(v.start, v.stop)
+            i = fresh("ri", I)
+            n = zmax(v.stop - v.start, z3.IntVal(0))
+            st.assume(z3.Length(seq) == n)
+            st.assume(z3.ForAll([i], z3.Implies(z3.And(i >= 0, i < n), seq[i] == U.int(v.start + i))))
         if seq is None:
             if isinstance(v, (VU, VOpaque)):
                 # an unknown iterable: its items are an uninterpreted sequence
